@@ -90,7 +90,7 @@ Qed.
 
 Lemma run_body_log : forall p, body_log (run_body E C fault p).
 Proof.
-  induction p as [o | m chk k IHk | chk k IHk | b IHb chk k IHk | n k IHk | n k IHk];
+  induction p as [o | m chk k IHk | chk k IHk | b IHb chk rcv k IHk | n k IHk | n k IHk];
     intros h s r l h' s' H; cbn [run_body] in H.
   - destruct o; inversion H; subst; reflexivity.
   - destruct (h_stmt fault (Some m) h s) as [[e n0] s1] eqn:Es. apply h_stmt_log in Es.
@@ -111,7 +111,8 @@ Proof.
       match type of H with context [run_body E C fault k h1 ?sx] => set (s1' := sx) in * end.
       destruct (run_body E C fault k h1 s1') as [[[r1 l1] h2] s2] eqn:Ek. apply IHk in Ek.
       inversion H; subst. rewrite Ek. subst s1'. destruct o0 as [| | | |[|]]; cbn; exact En.
-    + inversion H; subst; exact En.
+    + destruct rcv; [|inversion H; subst; exact En].
+      destruct (run_body E C fault k h1 s1) as [[[r1 l1] h2] s2] eqn:Ek. apply IHk in Ek. inversion H; subst; congruence.
   - destruct (h_sp E C fault true (NUser n) h s) as [h1 s1] eqn:Es. apply h_sp_log in Es.
     destruct h1; [inversion H; subst; exact Es|].
     destruct (run_body E C fault k None s1) as [[[r1 l1] h2] s2] eqn:Ek. apply IHk in Ek. inversion H; subst; congruence.
